@@ -15,6 +15,7 @@ mod c14;
 mod c14_gen;
 mod c14_jar;
 mod c19;
+mod c20;
 mod choice;
 mod corpus;
 mod engine;
@@ -117,6 +118,7 @@ fn dispatch(a: &Args, digest_only: bool) -> i32 {
         "C13" => drive(&c13::C13, a, digest_only),
         "C14" => drive(&c14::C14, a, digest_only),
         "C19" => drive(&c19::C19, a, digest_only),
+        "C20" => drive(&c20::C20, a, digest_only),
         other => {
             eprintln!("harness error: no engine for {other}");
             2
